@@ -55,7 +55,12 @@ def make_ld(I, disp, ka, kb, desc_known):
     counts = {}
     descs = {}
     did = frozenset((("x",), "a", ("raw1",)))
-    if desc_known:
+    if desc_known == "other":
+        # stream 'a' already has events, but under a different descriptor (e.g. other data keys): the incoming event
+        # needs a new descriptor while the numbering of the stream continues
+        descs["a"] = {frozenset((("x", "w"), "a", ("raw1",))): {"uid": "desc-a-old", "data_keys": {"x": {}, "w": {}}}}
+        counts["a"] = ka
+    elif desc_known:
         descs["a"] = {did: {"uid": "desc-a", "data_keys": {"x": {}}}}
         counts["a"] = ka
     else:
@@ -91,11 +96,11 @@ def process_event(I):
     emitted = []
     disp = install(I, emitted)
     ka, kb = w.int("count_a"), w.int("count_b")
-    known = w.choose([False, True], "descriptor already emitted for this stream")
+    known = w.choose([False, True, "other"], "descriptor already emitted for this stream")
     o, has_b = make_ld(I, disp, ka, kb, known)
     if has_b:
         w.cover("other stream has events")
-    w.cover("known descriptor" if known else "new descriptor")
+    w.cover("known descriptor" if known is True else "new descriptor")
     doc = {"uid": "ev1", "descriptor": "raw1", "data": {"x": w.real("x")}, "timestamps": {"x": w.real("tx")}, "seq_num": w.int("raw_seq"), "time": w.real("t")}
     call_method(I, o, "process_event", doc, stream_name="a")
     rp = {"replay": "stream.live_dispatcher"}
@@ -104,7 +109,7 @@ def process_event(I):
     descs = [d for n, d in emitted if docname(n) == "descriptor"]
     w.check(f"{Q}.process_event#ensures[exactly one event, seq_num == count(stream)+1]",
             And(len(events) == 1, Eq(events[0]["seq_num"], ka + 1) if events else False), rp)
-    if known:
+    if known is True:
         ok = names == ["event"] and events[0]["descriptor"] == "desc-a"
     else:
         ok = names == ["descriptor", "event"] and Eq(events[0]["descriptor"], descs[0]["uid"]) is True and descs[0]["run_start"] == "start-uid"
